@@ -6,7 +6,16 @@ proofs (Properties_C07.v, on the solver model of C08) + trainer-level runs of th
 {shrinking} x {precomputed / cached, float/double cache} x {cold / warm}; the spec monitor checks every
 result against an independently computed kernel matrix: box, equality constraint, KKT violation <= eps,
 bias inside its interval, reported objective = recomputed, objective agreement across configurations
-within the proved bound 2*eps*sum(U-L).  The step-level tie of the model is C08's check."""
+within the proved bound 2*eps*sum(U-L).  The step-level tie of the model is C08's check.
+
+Extension (C07Setup.v / C07Cert.v, extracted to build/ocaml/C07): on every run the harness also prints the quadratic
+program the REAL trainer handed to QpSolver (linear term, box, initial alpha; observed inside QpSolver::solve) and
+  (a) the extracted assembly model, run on IEEE doubles, must reproduce it bit for bit (incl. the warm-start clipping,
+      the log-encoded regularisation parameters, the 2n-variable eps-SVR problem with its block matrix index map and the
+      way the returned coefficient is formed, the one-class box and initial point);
+  (b) the extracted, proved `certify` (exact rational arithmetic) is run on the trainer's returned variables with the
+      kernel matrix computed independently (exact Gram matrix of the dyadic data for the linear kernel, Python's doubles
+      converted exactly for the Gaussian kernel) and must accept with eps + the printed rounding allowance."""
 import os, sys, re, math, struct, json
 sys.path.insert(0, os.path.dirname(os.path.abspath(__file__)))
 from vlib import *
@@ -17,8 +26,11 @@ EPSM = 2.220446049250313e-16
 def fhex(x): return float(x).hex()
 def f32(x): return struct.unpack("f", struct.pack("f", x))[0]
 
+CS = ("csvm", "csvmw", "csvmu")
+
 def gen_problem(rng, pid, big):
     tr = rng.choice(["csvm", "csvm", "csvm", "csvmw", "epssvr", "oneclass"])
+    u = rng.random(); unc = tr == "csvm" and u < 0.25
     n = rng.randint(4, 12) if rng.random() < 0.7 else rng.randint(13, 30 if big else 20)
     d = rng.randint(1, 3)
     kernel = rng.choice(["lin", "rbf", "rbf"]) if tr != "oneclass" else "rbf"
@@ -30,9 +42,13 @@ def gen_problem(rng, pid, big):
     p = {"pid": pid, "trainer": tr, "n": n, "d": d, "kernel": kernel, "gamma": rng.choice([0.125, 0.5, 1.0, 2.0]) if kernel == "rbf" else 0.0, "x": x}
     C = rng.choice([0.125, 1.0, 10.0, 100.0, 1000.0])
     p["Cneg"] = C; p["Cpos"] = C * (rng.choice([1, 1, 0.5, 4]) if tr in ("csvm", "csvmw") else 1)
+    if unc:
+        # log-encoded regularisation parameters: the trainer gets log C through setParameterVector and uses exp(log C)
+        p["trainer"] = tr = "csvmu"; p["logC"] = (math.log(p["Cneg"]), math.log(p["Cpos"]))
+        p["Cneg"] = math.exp(p["logC"][0]); p["Cpos"] = math.exp(p["logC"][1])
     p["eps"] = rng.choice([1e-3, 1e-2, 1e-5])
     p["param"] = 0.0; p["w"] = None
-    if tr in ("csvm", "csvmw"):
+    if tr in CS:
         y = [rng.randint(0, 1) for _ in range(n)]
         if len(set(y)) == 1: y[rng.randrange(n)] ^= 1
         if rng.random() < 0.15: y = [1] + [0] * (n - 1)
@@ -48,14 +64,22 @@ def configs(p, rng):
     out = []
     for shrink in (0, 1):
         for prec, cs in ((1, 100000), (0, 0x4000000), (0, 2 * p["n"] * (2 if p["trainer"] == "epssvr" else 1))):
-            for warm in ((0, 1) if p["trainer"] in ("csvm", "csvmw") else (0,)):
-                ct = "d" if p["trainer"] not in ("csvm", "csvmw") else rng.choice(["d", "d", "f"])
+            for warm in ((0, 1) if p["trainer"] in CS else (0,)):
+                ct = "d" if p["trainer"] not in CS else rng.choice(["d", "d", "f"])
                 out.append({"shrink": shrink, "prec": prec, "cachesize": cs, "warm": warm, "ctype": ct})
+    # warm = 2: the first training uses 4*C, so the old coefficients leave the new box and the clipping of the warm start
+    # matters.  (With an offset the clipped point used to violate sum(alpha) = 0 and the trainer returned an infeasible
+    # solution: finding `equality:csvm*:bias1:warm2`, corpus/C07/finding_warmclip.txt, since repaired in /repo by rescaling
+    # the heavier side; the assembly model C07Setup.rebalance follows the repair.)
+    if p["trainer"] in ("csvm", "csvmw"):
+        for shrink in (0, 1):
+            out.append({"shrink": shrink, "prec": 1 - shrink, "cachesize": 0x4000000, "warm": 2, "ctype": "d"})
     return out
 
 def case_line(p, c, cid):
     t = ["T", cid, p["trainer"], str(p["bias"]), str(c["shrink"]), str(c["prec"]), str(c["cachesize"]), c["ctype"], p["kernel"],
-         fhex(p["gamma"]), fhex(p["Cneg"]), fhex(p["Cpos"]), fhex(p["eps"]), fhex(p["param"]), str(p["n"]), str(p["d"]), str(c["warm"])]
+         fhex(p["gamma"])] + ([fhex(v) for v in p["logC"]] if p["trainer"] == "csvmu" else [fhex(p["Cneg"]), fhex(p["Cpos"])]) + \
+        [fhex(p["eps"]), fhex(p["param"]), str(p["n"]), str(p["d"]), str(c["warm"])]
     t += [fhex(v) for v in p["y"]] + [fhex(v) for q in p["x"] for v in q]
     if p["trainer"] == "csvmw": t += [fhex(v) for v in p["w"]]
     return " ".join(t)
@@ -69,6 +93,8 @@ def parse_case_line(l):
     p["y"] = [pf(v) for v in t[q:q + n]]; q += n
     p["x"] = [[pf(t[q + i * d + k]) for k in range(d)] for i in range(n)]; q += n * d
     if p["trainer"] == "csvmw": p["w"] = [pf(v) for v in t[q:q + n]]
+    if p["trainer"] == "csvmu":
+        p["logC"] = (p["Cneg"], p["Cpos"]); p["Cneg"] = math.exp(p["logC"][0]); p["Cpos"] = math.exp(p["logC"][1])
     return p, c
 
 def kernel_matrix(p):
@@ -84,7 +110,7 @@ def dual_view(p, coef):
     """the dual variables of the problem the trainer documents, from the returned coefficients:
        list of (value, lo, hi, lin, index of the training point) + equality flag"""
     n = p["n"]; tr = p["trainer"]; V = []
-    if tr in ("csvm", "csvmw"):
+    if tr in CS:
         for i in range(n):
             w = p["w"][i] if p["w"] else 1.0
             if p["y"][i]: V.append((coef[i], 0.0, p["Cpos"] * w, 1.0, i))
@@ -132,12 +158,70 @@ def monitor(p, c, K, res):
     if eq and typ == 1 and nb == 1 and up and dn and not bad:
         lo_b = max(up) - eps - 2 * tol; hi_b = min(dn) + eps + 2 * tol       # admissible multipliers up to eps
         if not (lo_b <= bias <= hi_b): bad.append(("bias", "bias %r outside the interval [%r,%r] allowed by the optimality conditions" % (bias, lo_b, hi_b)))
-    if not eq and p["trainer"] in ("csvm", "csvmw") and nb != 0 and bias != 0.0:
+    if not eq and p["trainer"] in CS and nb != 0 and bias != 0.0:
         bad.append(("bias", "bias-free training returned offset %r" % bias))
     obj = math.fsum(lin * v for (v, lo, hi, lin, i) in V) - 0.5 * math.fsum(coef[i] * f[i] for i in range(n))
     otol = (frel * 4 + 64 * EPSM * math.sqrt(it + 1)) * max(1.0, scale * asum)
     if not abs(value - obj) <= otol: bad.append(("objective", "reported dual objective %r, recomputed %r (tol %.3g)" % (value, obj, otol)))
     return bad, obj
+
+
+# ---------------------------------------------------------------------------------------------------------------------
+# extension: extracted assembly model + certified checker next to the real trainers
+
+def canon(h):
+    """canonical text of a hex double (the sign of zero is kept)"""
+    return float.fromhex(h).hex()
+
+def driver_A(p, c, cid, k, prev):
+    """A line of ocaml/c07_driver.ml for the k-th QpSolver::solve call of a run (prev: hex coefficients of the warm start)"""
+    tr = p["trainer"]; kind = {"csvmu": "csvm"}.get(tr, tr); n = p["n"]
+    unc = 1 if tr == "csvmu" else 0
+    if tr == "csvmu": r0, r1 = p["logC"]
+    elif tr == "epssvr": r0, r1 = p["Cpos"], p["Cpos"]
+    else: r0, r1 = p["Cneg"], p["Cpos"]
+    if c["warm"] == 2 and k == 0: r0, r1 = 4.0 * r0, 4.0 * r1          # t.setRegularizationParameters(4.0 * reg)
+    two = 0 if (tr in CS and r0 == r1) or tr not in CS else 1
+    t = ["A", "%s#%d" % (cid, k), kind, str(p["bias"]), str(n), str(two), str(unc), fhex(r0), fhex(r1), fhex(p["param"]), "1" if prev is not None else "0"]
+    t += [fhex(v) for v in p["y"]]
+    if tr == "csvmw": t += [fhex(v) for v in p["w"]]
+    if prev is not None: t += prev
+    return " ".join(t)
+
+def psd_min_pivot(K):
+    """smallest pivot of a symmetric-pivoting LDL^T of K relative to the largest diagonal entry (monitor of the PSD assumption)"""
+    n = len(K); A = [row[:] for row in K]; m = 0.0; dmax = max([abs(A[i][i]) for i in range(n)] + [1e-300])
+    idx = list(range(n))
+    for k in range(n):
+        j = max(range(k, n), key=lambda i: A[i][i])
+        if j != k:
+            A[k], A[j] = A[j], A[k]
+            for r in A: r[k], r[j] = r[j], r[k]
+        piv = A[k][k]; m = min(m, piv / dmax)
+        if piv <= 1e-13 * dmax:
+            m = min(m, min(A[i][i] for i in range(k, n)) / dmax); break
+        for i in range(k + 1, n):
+            f = A[i][k] / piv
+            if f != 0.0:
+                for q in range(k + 1, n): A[i][q] -= f * A[k][q]
+    return m
+
+def allowances(p, c, K, it, coef, var, lohi):
+    """rounding allowances handed to certify, the same formulas as the Python monitor uses:
+       tol: error of the solver's incrementally updated double gradient w.r.t. the exact lin - K alpha (float cache: entries
+            rounded to float) -- the solver stops on ITS gradient, so the exact violation may exceed eps by 2*tol;
+       slack: drift of sum(alpha) (every SMO step rounds two coefficients), plus the rounding of the initial point"""
+    n = p["n"]
+    scale = max(1.0, max(sum(abs(K[i][j] * coef[j]) for j in range(n)) for i in range(n)))
+    frel = 2.0 ** -22 if c["ctype"] == "f" else 64 * EPSM
+    tol = frel * scale + 256 * EPSM * scale * math.sqrt(it + 1)
+    asum = sum(abs(v) for v in var)
+    amax = max([abs(v) for v in var] + [abs(x) for x in lohi if abs(x) < 1e300] + [1.0])
+    steps = it + 4 + (20000 if c["warm"] else 0)
+    slack = 64 * EPSM * (asum + 1) + 4 * EPSM * steps * amax
+    return tol, slack
+
+CERT_CODES = {1: "negative-eps", 2: "box", 3: "equality", 4: "kkt", 5: "bias"}
 
 def main():
     ck = Check(PID)
@@ -149,6 +233,7 @@ def main():
     exe, err = cxx_build("c07_train", [os.path.join(ROOT, "harness", "c07_train.cpp")] + repo_src("src/Core/Random.cpp"))
     if exe is None:
         ck.oblige("harness builds against /repo", False, err); ck.finish()
+    model = extract_model(PID, "C07Extract.v", "c07_driver.ml")
     tmpd = os.path.join(BUILD, "tmp", PID); os.makedirs(tmpd, exist_ok=True)
     big = ck.tier == "thorough"
     items = []          # (problem, config, id)
@@ -169,10 +254,12 @@ def main():
     cf = os.path.join(tmpd, "cases.txt")
     open(cf, "w").write("\n".join(case_line(p, c, cid) for p, c, cid in items) + "\n")
     rc, out, err = sh([exe, cf], timeout=3000, env={"OMP_NUM_THREADS": "1", "OPENBLAS_NUM_THREADS": "1"})
-    results = {}
+    results = {}; hq = {}; hf = {}; hw = {}; hm = {}          # harness lines Q/F/M by (id, k), W by id (hex strings)
     for l in out.split("\n"):
         t = l.split()
         if not t: continue
+        if t[0] in ("Q", "F", "M"): {"Q": hq, "F": hf, "M": hm}[t[0]][(t[1], int(t[2]))] = t[4:]
+        elif t[0] == "W": hw[t[1]] = t[3:]
         if t[0] == "R":
             na = int(t[8])
             results[t[1]] = (int(t[2]), int(t[3]), float.fromhex(t[4]), float.fromhex(t[5]), int(t[6]), float.fromhex(t[7]), [float.fromhex(v) for v in t[9:9 + na]])
@@ -216,6 +303,121 @@ def main():
             a = max(lst, key=lambda z: z[4]); b = min(lst, key=lambda z: z[4])
             rep(p, b[1], b[2], "config-dependence", "dual objective depends on the configuration: %r (shrink=%d prec=%d warm=%d) vs %r (shrink=%d prec=%d warm=%d), allowed spread %r"
                 % (b[4], b[1]["shrink"], b[1]["prec"], b[1]["warm"], a[4], a[1]["shrink"], a[1]["prec"], a[1]["warm"], lim))
+
+    # ---- extension: assembly model and certified checker (extracted from Coq) next to the real trainers ----
+    dl = []; want = {}           # driver input lines; want[cid] = what to compare
+    psd_min = 0.0; allow_max = {"eps_allowance_2tol": 0.0, "slack_eq": 0.0, "bound_slack_term": 0.0}
+    for p, c, cid in items:
+        r = results.get(cid)
+        if r is None or isinstance(r, str): continue
+        n = p["n"]; nsolve = 2 if c["warm"] else 1
+        if any((cid, k) not in hq or (cid, k) not in hf for k in range(nsolve)): continue      # reported below as missing
+        for k in range(nsolve):
+            prev = hw.get(cid) if k == 1 else None
+            dl.append(driver_A(p, c, cid, k, prev))
+        last = nsolve - 1
+        var = [float.fromhex(v) for v in hf[(cid, last)]]
+        if p["trainer"] == "epssvr": dl.append("S %s %d %s" % (cid, n, " ".join(hf[(cid, last)])))
+        if r[0] != 1: continue                                  # certify only what the trainer claims to be accurate
+        Kd, K32 = Kc[id(p)]; Kuse = K32 if c["ctype"] == "f" else Kd
+        q = hq[(cid, last)]; dims = len(q) // 4
+        lohi = [float.fromhex(v) for v in q[dims:3 * dims]]
+        tol, slack = allowances(p, c, Kuse, r[1], r[6], var, lohi)
+        eq = 1 if (p["trainer"] not in CS or p["bias"]) else 0
+        target = 1.0 if p["trainer"] == "oneclass" else 0.0
+        eps_c = p["eps"] + 2 * tol
+        if p["kernel"] == "lin": km = "lin %d %d %s" % (n, p["d"], " ".join(fhex(v) for row in p["x"] for v in row))
+        else:
+            km = "mat %d %s" % (n, " ".join(fhex(v) for row in Kuse for v in row))
+            if id(p) not in want: psd_min = min(psd_min, psd_min_pivot(Kuse))
+        dl.append("C %s %d %s %d %s %s %s %s %s %s" % (cid, eq, fhex(target), 1 if (eq and r[4] == 1) else 0, fhex(r[5]), fhex(eps_c), fhex(slack), fhex(0.0), km, " ".join(hf[(cid, last)])))
+        want[cid] = (eps_c, slack, 2 * tol); want[id(p)] = True
+        allow_max["eps_allowance_2tol"] = max(allow_max["eps_allowance_2tol"], 2 * tol / p["eps"])
+        allow_max["slack_eq"] = max(allow_max["slack_eq"], slack)
+        allow_max["bound_slack_term"] = max(allow_max["bound_slack_term"], abs(r[5]) * 2 * slack)
+    mf = os.path.join(tmpd, "model_in.txt"); open(mf, "w").write("\n".join(dl) + "\n")
+    mrc, mout, merr = sh([model, mf], timeout=3000)
+    if mrc != 0: raise RuntimeError("model driver failed: rc=%s %s" % (mrc, merr[-2000:]))
+    mq = {}; mb = {}; mcoef = {}; mcert = {}
+    for l in mout.split("\n"):
+        t = l.split()
+        if not t: continue
+        if t[0] == "Q": mq[t[1]] = t[3:]
+        elif t[0] == "B": mb[t[1]] = [int(v) for v in t[3:]]
+        elif t[0] == "COEF": mcoef[t[1]] = t[3:]
+        elif t[0] == "CERT": mcert[t[1]] = t[2:]
+    keys2 = {}; nasm = 0; ncert = 0; ncoef = 0; nblock = 0
+    def rep2(p, c, cid, key, msg, extra=None):
+        nonlocal nrep
+        k2 = "%s:%s:bias%d:warm%d" % (key, p["trainer"], p["bias"], c["warm"]); keys2[k2] = keys2.get(k2, 0) + 1
+        if keys2[k2] > 1 or nrep >= 8: return
+        nrep += 1
+        line = case_line(p, c, cid)
+        path = ck.write_replay("case_%s.txt" % cid, "# C07 replay: %s\n%s\n" % (msg, line))
+        d = {"case_file": path, "case": line, "observed": msg, "expected": "the problem assembled by the model C07Setup.v / a result accepted by the proved checker C07Cert.certify (Properties_C07.v)",
+             "problem": {k: v for k, v in p.items()}, "config": c, "replay_cmd": "python3 tools/c07.py --replay %s" % path}
+        if extra: d.update(extra)
+        ck.violation(k2, d, "extracted model vs implementation: " + msg)
+    fields = ["linear", "boxMin", "boxMax", "initial alpha"]
+    for p, c, cid in items:
+        r = results.get(cid)
+        if r is None or isinstance(r, str): continue
+        n = p["n"]; nsolve = 2 if c["warm"] else 1
+        miss = [k for k in range(nsolve) if (cid, k) not in hq or (cid, k) not in hf]
+        if miss or (cid, nsolve) in hq:
+            rep2(p, c, cid, "assembly:solve-calls", "the trainer entered QpSolver::solve %d times, expected %d" % (sum(1 for k in range(4) if (cid, k) in hq), nsolve)); continue
+        for k in range(nsolve):
+            a = [canon(v) for v in hq[(cid, k)]]; b = [canon(v) for v in mq.get("%s#%d" % (cid, k), [])]
+            nasm += 1
+            if a != b:
+                dims = len(a) // 4
+                if len(a) != len(b): msg = "problem of %d variables, the model assembles %d" % (dims, len(b) // 4)
+                else:
+                    j = next(i for i in range(len(a)) if a[i] != b[i])
+                    msg = "%s(%d) of the problem the trainer built is %s (%r), the assembly model gives %s (%r)" % (fields[j // dims], j % dims, a[j], float.fromhex(a[j]), b[j], float.fromhex(b[j]))
+                rep2(p, c, cid, "assembly:" + ("warm-start" if k == 1 else "problem"), msg + " [solve call %d, %s shrink=%d prec=%d cache=%s warm=%d]" % (k, p["trainer"], c["shrink"], c["prec"], c["ctype"], c["warm"]),
+                     {"implementation_problem": hq[(cid, k)], "model_problem": mq.get("%s#%d" % (cid, k))}); break
+        last = nsolve - 1; fin = [canon(v) for v in hf[(cid, last)]]
+        if p["trainer"] == "epssvr":
+            # (i) returned coefficient = model's svr_coef of the 2n solver variables, (ii) block matrix structure
+            ncoef += 1
+            mc = [canon(v) for v in mcoef.get(cid, [])]; rc_ = [float(v).hex() for v in r[6]]
+            if mc != rc_:
+                j = next((i for i in range(min(len(mc), len(rc_))) if mc[i] != rc_[i]), 0)
+                rep2(p, c, cid, "svr-coef", "returned coefficient %d is %r, the model forms %s from the two solver variables" % (j, r[6][j] if j < len(r[6]) else None, mc[j] if j < len(mc) else None))
+            M = hm.get((cid, 0)); idx = mb.get("%s#0" % cid)
+            if M is not None and idx is not None:
+                nblock += 1; dims = 2 * n; Mv = [float.fromhex(v) for v in M]; Kd = Kc[id(p)][0]
+                badm = None
+                for i in range(dims):
+                    for j in range(dims):
+                        if Mv[i * dims + j] != Mv[idx[i] * dims + idx[j]]: badm = "entry (%d,%d) of the 2n x 2n matrix is %r, entry (%d,%d) of its upper left block is %r" % (i, j, Mv[i * dims + j], idx[i], idx[j], Mv[idx[i] * dims + idx[j]])
+                        if i < n and j < n and not abs(Mv[i * dims + j] - Kd[i][j]) <= 1e-12 * max(1.0, abs(Kd[i][j])): badm = "entry (%d,%d) of the matrix the solver sees is %r, the kernel gives %r" % (i, j, Mv[i * dims + j], Kd[i][j])
+                if badm: rep2(p, c, cid, "blockmatrix", badm)
+        else:
+            if fin != [float(v).hex() for v in r[6]]:
+                rep2(p, c, cid, "coef-copy", "the returned coefficients differ from the solver's final variables")
+        if cid in want:
+            ncert += 1
+            cr = mcert.get(cid)
+            if cr is None: rep2(p, c, cid, "certify:missing", "the model driver gave no verdict")
+            elif cr[0] != "0":
+                eps_c, slack, al = want[cid]
+                rep2(p, c, cid, "certify:" + CERT_CODES.get(int(cr[0]), cr[0]),
+                     "the proved checker rejects the trainer's result (%s): exact KKT violation %s, eps %r + allowance %.3g; equality slack %.3g; multiplier %s [%s shrink=%d prec=%d cache=%s warm=%d]"
+                     % (CERT_CODES.get(int(cr[0]), cr[0]), float.fromhex(cr[1]) if len(cr) > 1 else "?", p["eps"], al, slack, float.fromhex(cr[2]) if len(cr) > 2 else "?", p["trainer"], c["shrink"], c["prec"], c["ctype"], c["warm"]),
+                     {"certify_code": cr[0], "eps_with_allowance": eps_c, "slack_eq": slack})
+    ak = {k: v for k, v in keys2.items() if not k.startswith("certify:")}; ckk = {k: v for k, v in keys2.items() if k.startswith("certify:")}
+    ck.oblige("assembly model (C07Setup.v, extracted, IEEE doubles) reproduces the problem the real trainer hands to QpSolver bit for bit "
+              "(%d solve calls; %d eps-SVR coefficient vectors; %d block matrices)" % (nasm, ncoef, nblock), not ak, "" if not ak else json.dumps(ak))
+    ck.oblige("proved checker C07Cert.certify (extracted, exact rationals) accepts every result reported as accurate (%d runs)" % ncert, not ckk, "" if not ckk else json.dumps(ckk))
+    ck.notes["certify_allowances"] = {"formula": "eps_certify = eps + 2*tol, tol = frel*scale + 256*u*scale*sqrt(iterations+1) (u = 2^-52, frel = 64u, 2^-22 with a float cache; scale = max_i sum_j |K_ij alpha_j|): "
+                                      "the solver stops on its own incrementally updated double gradient; slack_eq = 64u(sum|alpha|+1) + 4u*steps*max(|alpha|,|box|): rounding of two coefficients per SMO step; slack_bias = 0",
+                                      "max 2*tol/eps": allow_max["eps_allowance_2tol"], "max slack_eq": allow_max["slack_eq"], "max |bias|*2*slack_eq (slack term of the proved bound)": allow_max["bound_slack_term"]}
+    ck.notes["psd_monitor_min_pivot_rel"] = psd_min
+    ck.oblige("kernel matrices handed to certify as doubles (Gaussian kernel) are positive semidefinite up to rounding (pivoted LDL^T, smallest pivot %.3g relative)" % psd_min, psd_min >= -1e-9)
+    ck.notes["model_failures_by_key"] = keys2; ck.notes["assembly_solve_calls_compared"] = nasm; ck.notes["certified_runs"] = ncert
+    log("model failures by key: %s; %d solve calls compared, %d runs certified" % (keys2, nasm, ncert))
     ck.oblige("trainer results satisfy the eps-KKT spec against an independent kernel matrix (%d runs, %d reported accuracy reached)" % (len(items), nacc), not keys,
               "" if not keys else json.dumps(keys))
     ck.cov["evaluations"] = len(items)
